@@ -38,7 +38,7 @@ type val struct {
 	kids []*val
 }
 
-func vStr(s string) *val  { return &val{k: kStr, s: s} }
+func vStr(s string) *val   { return &val{k: kStr, s: s} }
 func vNum(raw string) *val { return &val{k: kNum, s: raw} }
 func vNull() *val          { return &val{k: kNull} }
 func vBool(b bool) *val {
@@ -47,7 +47,7 @@ func vBool(b bool) *val {
 	}
 	return &val{k: kBool, s: "false"}
 }
-func vObj() *val { return &val{k: kObj} }
+func vObj() *val             { return &val{k: kObj} }
 func vArr(kids ...*val) *val { return &val{k: kArr, kids: kids} }
 
 func (v *val) kindOf() kind {
